@@ -19,6 +19,14 @@ pub struct Gen {
 impl Gen {
     pub fn tags(&self) -> Vec<String> {
         let mut t = match &self.ft {
+            Some(ft) if !ft.local.is_empty() => {
+                let mut t = vec![format!("fl_requests_{}", ft.local.len())];
+                let l = &ft.local;
+                if (0..l.len()).any(|a| (0..a).any(|b| l[a].0 == l[b].0 && l[a].1.floor() == l[b].1.floor())) {
+                    t.push("fl_same_closure_value_requested_twice_for_one_sample".into());
+                }
+                t
+            }
             Some(ft) => {
                 let mut t = vec![format!("ft_tasks_{}", ft.tasks.len())];
                 if ft.tasks.iter().any(|x| x.period > 0.0) {
@@ -1067,6 +1075,9 @@ pub struct FtTask {
 #[derive(Clone, Debug, PartialEq)]
 pub struct FtSpec {
     pub tasks: Vec<FtTask>,
+    /// FL programs: requests `(closure j, time)` for two closure *values* bound inside a function; the same value may be
+    /// requested several times, also for one sample (each request is one task)
+    pub local: Vec<(usize, f64)>,
 }
 const FT_TIMES: [f64; 4] = [1.0, 2.0, 3.0, 2.5];
 const FT_PERIODS: [f64; 4] = [0.0, 1.0, 2.0, 3.0];
@@ -1087,12 +1098,56 @@ pub fn ft_decode(idx: u64, k: u32) -> Option<Gen> {
             tasks.push(FtTask { at: None, chain_delay: FT_TIMES[(*d - 16) as usize], period: 0.0 });
         }
     }
-    let spec = FtSpec { tasks };
+    let spec = FtSpec { tasks, local: vec![] };
     let ops = spec.tasks.iter().enumerate().map(|(i, t)| format!("task{i}: {t:?}")).collect();
     Some(Gen { prog: Prog::default(), family: "FT", inputs: 0, ops, ft: Some(spec), text: None })
 }
+const FL_RADIX: u64 = 8;
+pub fn fl_count(k: u32) -> u64 {
+    seq_count(FL_RADIX, k)
+}
+/// FL: one function binds two closures (each counts its runs in a captured local) and issues 1..=k requests
+/// `tick_j@time`, then returns a reader closure; every sequence of requests over 2 closures x 4 times
+pub fn fl_decode(idx: u64, k: u32) -> Option<Gen> {
+    let digits = seq_decode(idx, FL_RADIX, k);
+    let local: Vec<(usize, f64)> = digits.iter().map(|d| ((*d / 4) as usize, FT_TIMES[(*d % 4) as usize])).collect();
+    let ops = local.iter().map(|(j, t)| format!("tick{j}@{}", fmt_num(*t))).collect();
+    Some(Gen { prog: Prog::default(), family: "FL", inputs: 0, ops, ft: Some(FtSpec { tasks: vec![], local }), text: None })
+}
 impl FtSpec {
+    fn local_source(&self) -> String {
+        let mut o = String::from("fn make(){\n");
+        for j in 0..2 {
+            o.push_str(&format!("  let c{j} = 0.0\n  let t{j} = 0.0 - 1.0\n"));
+        }
+        for j in 0..2 {
+            o.push_str(&format!("  let tick{j} = | | {{\n    c{j} = c{j} + 1.0\n    t{j} = now\n  }}\n"));
+        }
+        for (j, t) in &self.local {
+            o.push_str(&format!("  tick{j}@{}\n", fmt_num(*t)));
+        }
+        o.push_str("  | | (c0, t0, c1, t1)\n}\nlet g = make()\nfn dsp(){\n  g()\n}\n");
+        o
+    }
+    fn local_reference(&self, nsamples: usize) -> Vec<Vec<f64>> {
+        let mut c = [0.0f64; 2];
+        let mut tt = [-1.0f64; 2];
+        let mut out = vec![];
+        for s in 0..nsamples {
+            for (j, w) in &self.local {
+                if w.floor() as usize == s {
+                    c[*j] += 1.0;
+                    tt[*j] = s as f64;
+                }
+            }
+            out.push(vec![c[0], tt[0], c[1], tt[1]]);
+        }
+        out
+    }
     pub fn source(&self) -> String {
+        if !self.local.is_empty() {
+            return self.local_source();
+        }
         let mut o = String::new();
         let n = self.tasks.len();
         for i in 0..n {
@@ -1122,6 +1177,9 @@ impl FtSpec {
     /// reference: a sorted multiset of (time, task); a task scheduled for time w runs exactly once,
     /// at the start of sample floor(w), before dsp of that sample
     pub fn reference(&self, nsamples: usize) -> Vec<Vec<f64>> {
+        if !self.local.is_empty() {
+            return self.local_reference(nsamples);
+        }
         let n = self.tasks.len();
         let mut c = vec![0.0; n];
         let mut tt = vec![-1.0; n];
@@ -1401,6 +1459,8 @@ pub fn features(p: &Prog) -> Vec<String> {
             let mut creates = false;
             walk(&f.body, &mut |x| match x {
                 E::Lambda(..) => creates = true,
+                // a top-level function named as a value (bound to a local, passed on): wrapped in a closure object
+                E::Var(v) if fn_names.contains(v) => creates = true,
                 E::Call(n, args, _) => {
                     if factories.contains(n) || n == "mkadd" {
                         creates = true;
